@@ -224,7 +224,7 @@ class PandasCheckBackend(BaseCheckBackend):
                     .head(self.check.n_failure_cases)["failure_cases"]
                 )
             else:
-                failure_cases = failure_cases.groupby(check_output).head(
+                failure_cases = failure_cases.head(
                     self.check.n_failure_cases
                 )
         return failure_cases
